@@ -140,6 +140,14 @@ func collectRMWEvents(ci *concInfo) []rmwEvent {
 						if l, held := ci.lockFor(field, ins); held {
 							evs = append(evs, rmwEvent{field, true, ins, x.Val, f, acquisitionOf(ins, l), l, x.Pos(), nil})
 						}
+					} else if prm, isPrm := x.Addr.(*ssa.Parameter); isPrm {
+						// a store through a pointer parameter that every caller binds to a shared field (`slot *map[..]T`
+						// handed &w.cachedFormats): a write of that field
+						if field := sharedFieldBoundTo(ci, f, prm); field != "" {
+							if l, held := ci.lockFor(field, ins); held {
+								evs = append(evs, rmwEvent{field, true, ins, x.Val, f, acquisitionOf(ins, l), l, x.Pos(), nil})
+							}
+						}
 					}
 				case *ssa.UnOp:
 					if x.Op != token.MUL {
@@ -307,10 +315,44 @@ func stripConv(v ssa.Value) ssa.Value {
 	}
 }
 
+// sharedFieldBoundTo: the pointer parameter prm of f is, at some call site, the address of a field of a shared struct.
+func sharedFieldBoundTo(ci *concInfo, f *ssa.Function, prm *ssa.Parameter) string {
+	idx := -1
+	for i, q := range f.Params {
+		if q == prm {
+			idx = i
+		}
+	}
+	if idx < 0 {
+		return ""
+	}
+	var fns []*ssa.Function
+	fns = append(fns, f)
+	if o := f.Origin(); o != nil && o != f {
+		fns = append(fns, o)
+	}
+	for _, g := range fns {
+		for _, site := range (cgView{ci.c}).callersOf(g) {
+			if idx < len(site.Common().Args) {
+				if field, _, ok := rootSharedField(site.Common().Args[idx]); ok {
+					return field
+				}
+			}
+		}
+	}
+	return ""
+}
+
 func ruleRMW(c *Ctx) {
 	ci := buildConc(c)
 	evs := collectRMWEvents(ci)
 	writersG := map[string]bool{}
+	writersAny := map[string]bool{}
+	for _, e := range evs {
+		if e.write {
+			writersAny[e.field] = true
+		}
+	}
 	reads := map[ssa.Value]rmwEvent{}
 	nW := 0
 	for _, e := range evs {
@@ -366,6 +408,37 @@ func ruleRMW(c *Ctx) {
 			}
 			bad = fmt.Sprintf("the value stored at %s derives from a read of %s at %s made in a different critical section (lock released in between): an update made by another goroutine between the two is lost",
 				ci.p.pos(w.pos), w.field, ci.p.pos(r.pos))
+		}
+		// derived-state clause: the stored value is computed, in this function, from ANOTHER guarded field of the same
+		// struct that was read under an earlier acquisition of the same lock: whoever replaces that field in between
+		// (and clears the derived slot) is overwritten with a value derived from the old state
+		if bad == "" && w.cs != nil {
+			for v := range own {
+				r, ok := reads[v]
+				if ok && os.Getenv("HL_DBGRMW") != "" && r.fn == w.fn {
+					fmt.Printf("  derived? %s <- %s rcs=%v wcs=%v same=%v rl=%q wl=%q wAny=%v reachG=%v wG=%v\n", w.field, r.field, r.cs != nil, w.cs != nil, r.cs == w.cs, r.lock, w.lock, writersAny[r.field], ci.reachG[w.fn], writersG[r.field])
+				}
+				if !ok || r.field == w.field || r.fn != w.fn || r.cs == nil || r.cs == w.cs || strings.TrimSuffix(string(r.lock), "(R)") != strings.TrimSuffix(string(w.lock), "(R)") || r.lock == "" {
+					continue
+				}
+				if structOfField(r.field) != structOfField(w.field) || !writersAny[r.field] {
+					continue
+				}
+				onG := ci.reachG[w.fn]
+				if !onG {
+					// the shared body of a generic function: reachable if one of its instantiations is
+					for g, ok := range ci.reachG {
+						if ok && g.Origin() == w.fn {
+							onG = true
+						}
+					}
+				}
+				if !onG && !writersG[r.field] {
+					continue
+				}
+				bad = fmt.Sprintf("the value stored at %s is derived from %s read at %s in an earlier critical section of the same lock: an update that replaces %s in between (and resets the derived state) is followed by this store of a value computed from the old state, which then stays until the next update",
+					ci.p.pos(w.pos), r.field, ci.p.pos(r.pos), r.field)
+			}
 		}
 		c.check(bad == "", "C-RMW", funcName(w.fn), desc, w.pos,
 			fmt.Sprintf("the stored value depends on %d read(s) of the field, all in the critical section of the store", nSame), bad)
@@ -995,4 +1068,11 @@ func updateUsesArg(fn *ssa.Function) bool {
 		}
 	}
 	return uses
+}
+
+func structOfField(field string) string {
+	if i := strings.LastIndex(field, "."); i >= 0 {
+		return field[:i]
+	}
+	return field
 }
